@@ -14,7 +14,7 @@
 (*   c  classification labels computed by the spec (wall class, fold, ...)   *)
 (*   v  failed clauses, << <<clause, expected>>, ... >>; empty = conforming  *)
 (***************************************************************************)
-EXTENDS OpsDiff, OpsModifiers, OpsCalendar, OpsDuration, TLCExt
+EXTENDS OpsRange, OpsModifiers, OpsCalendar, OpsDuration, TLCExt
 
 T == JsonDeserialize(IOEnv.PV_TRACE)
 VARIABLES l, nbad
@@ -399,6 +399,55 @@ J_copy(e) ==
                   [] x.k = "tz" -> (IF p.k = "tz" THEN V("zone", ZRef(p.z) = ZRef(x.z) /\ p.name = x.name, x.z) ELSE <<>>)
                   [] OTHER -> << <<"unknown-kind", x.k>> >>))
 
+\* ---- C19 -----------------------------------------------------------------------------
+PtOf(v) == IF v.k = "date" THEN [k |-> "date", w |-> v.w] ELSE DT(v.z, v.w, v.f)
+CmpPt(post, x) == IF x.k = "date" THEN (IF post.k # "date" THEN << <<"kind", post.k>> >>
+                                        ELSE V("class", post.cls = "Date", "Date") \o V("date", post.w = x.w, x.w))
+                  ELSE CmpDT(post, x)
+Ambig(v) == v.k = "dt" /\ ~IsNaive(v) /\ ClassOf(v) = "repeated"
+RECURSIVE RangeItems(_, _, _, _, _, _, _, _, _)
+RangeItems(a, b, abs, unit, stp, crossSkip, ambiguous, items, j) ==
+  IF j > Len(items) THEN <<>>
+  ELSE LET it == items[j]
+           x == Kth(a, b, abs, unit, stp, it[1])
+       IN (IF crossSkip THEN <<>> ELSE
+           (LET c == CmpPt(it[2], x) IN IF c = <<>> THEN <<>> ELSE << <<"value", <<it[1], c>> >> >>)
+           \o V("inside", ambiguous \/ Between(a, b, x), it[1]))
+          \o RangeItems(a, b, abs, unit, stp, crossSkip, ambiguous, items, j + 1)
+J_range(e) ==
+  LET a == PtOf(e.pre[1])  b == PtOf(e.pre[2])  p == e.post
+      abs == e.a.abs  unit == e.a.unit  stp == e.a.n
+      cnt == p.count
+      zoned == a.k = "dt" /\ ~IsNaive(a)
+      lo == IF PLe(a, b) THEN a ELSE b
+      hi == IF PLe(a, b) THEN b ELSE a
+      crossSkip == zoned /\ unit \in {"years", "months", "weeks", "days"}
+                   /\ D3Abs(Elapsed(e.pre[1], e.pre[2]))[1] < 800
+                   /\ SkippedDay(Z(a.z), Ord(lo.w[1], lo.w[2], lo.w[3]) - 1, Ord(hi.w[1], hi.w[2], hi.w[3]) + 1)
+      last == Kth(a, b, abs, unit, stp, cnt - 1)
+      nxt == Kth(a, b, abs, unit, stp, cnt)
+      \* CPython orders two values sharing a tzinfo by wall clock: no verdict on the stopping point if it
+      \* or an end-point sits on an ambiguous wall time (soundness rule 2)
+      endAmbig == zoned /\ (Ambig(a) \/ Ambig(b))
+      ambiguous == zoned /\ (Ambig(last) \/ Ambig(nxt))
+  IN IF hi.w[1] > 9900 \/ lo.w[1] < 100 THEN R(<<"out-of-range">>, <<>>)          \* soundness rule 3
+     ELSE IF endAmbig THEN R(<<"ambiguous-end-point">>, <<>>)                      \* soundness rule 2
+     ELSE IF p.k = "exc" THEN R(<<"exception">>, << <<"unexpected-exception", p.names>> >>)
+     ELSE R(<<a.k, unit, N(stp), B(abs), N(IvDir(a, b, abs) + 1), B(crossSkip), B(ambiguous), B(p.capped)>>,
+       (IF ambiguous \/ crossSkip \/ p.capped \/ cnt < 1 THEN <<>>
+        ELSE V("stops-at-last-not-beyond", NotBeyond(a, b, abs, last) /\ ~NotBeyond(a, b, abs, nxt), cnt)
+             \o V("end-yielded-iff-reachable", p.end_yielded = (PointOf(last) = PointOf(IvEnd(a, b, abs))), PointOf(last)))
+       \o (IF cnt < 1 /\ ~p.capped THEN V("yields-start", FALSE, "the start is always yielded") ELSE <<>>)
+       \o RangeItems(a, b, abs, unit, stp, crossSkip, ambiguous, p.items, 1))
+J_contains(e) ==
+  LET a == PtOf(e.pre[1])  b == PtOf(e.pre[2])  x == PtOf(e.pre[3])
+      ambiguous == a.k = "dt" /\ ~IsNaive(a) /\ (Ambig(a) \/ Ambig(b) \/ Ambig(x))
+      want == Contains(a, b, e.a.abs, x)
+  IN R(<<a.k, B(e.a.abs), B(want), B(ambiguous)>>,
+       IF ambiguous THEN <<>> ELSE
+       IF e.post.k = "exc" THEN << <<"unexpected-exception", e.post.names>> >>
+       ELSE V("contains", e.post.v = want, want))
+
 \* ---- C15 -----------------------------------------------------------------------------
 J_year_prims(e) == LET y == e.a.y IN
    R(<<B(IsLeap(y)), B(IsLongYear(y))>>,
@@ -453,6 +502,8 @@ Judge(e) == CASE e.op = "in_tz" -> J_in_tz(e)
               [] e.op = "time_diff" -> J_time_diff(e)
               [] e.op \in {"time_closest", "time_farthest"} -> J_time_pick(e)
               [] e.op = "copy" -> J_copy(e)
+              [] e.op = "range" -> J_range(e)
+              [] e.op = "contains" -> J_contains(e)
               [] e.op = "year_prims" -> J_year_prims(e)
               [] e.op = "year_weekdays" -> J_year_weekdays(e)
               [] e.op = "year_getters" -> J_year_getters(e)
